@@ -34,6 +34,7 @@ type ServerPlan struct {
 	PingNs  int64  `json:"ping_ns"`
 	Reverse bool   `json:"reverse,omitempty"`
 	MaxReq  int64  `json:"max_req,omitempty"`
+	Tracer  bool   `json:"tracer,omitempty"`
 }
 
 type ClientPlan struct {
@@ -51,23 +52,24 @@ type ClientPlan struct {
 }
 
 type Op struct {
-	Kind    string `json:"kind"` // call retry alias notify add sub subretry rev
-	Client  int    `json:"client"`
-	Tok     int    `json:"tok"`
-	Size    int    `json:"size,omitempty"`
-	Err     bool   `json:"err,omitempty"`
-	Panic   string `json:"panic,omitempty"`
-	Delta   int64  `json:"delta,omitempty"`
-	N       int    `json:"n,omitempty"`
-	Hold    bool   `json:"hold,omitempty"`
-	Phase   int    `json:"phase,omitempty"`
-	Cancel  int    `json:"cancel,omitempty"`   // 0 none; k>0: a cancel task exists, started in phase k-1.. (scenario specific)
-	SleepNs int64  `json:"sleep_ns,omitempty"` // handler takes this much fake time
-	GapNs   int64  `json:"gap_ns,omitempty"`   // sub: producer pause between values
-	Raw     string `json:"raw,omitempty"`      // C10: hostile frame / body text
-	Group   int    `json:"group,omitempty"`    // C06: ops with the same group share one cancellable context
-	Stall   bool   `json:"stall,omitempty"`    // sub: the consumer never reads
-	Consume int    `json:"consume,omitempty"`  // sub: stop reading after k values (0 = all)
+	Kind      string `json:"kind"` // call retry alias notify add sub subretry rev
+	Client    int    `json:"client"`
+	Tok       int    `json:"tok"`
+	Size      int    `json:"size,omitempty"`
+	Err       bool   `json:"err,omitempty"`
+	Panic     string `json:"panic,omitempty"`
+	Delta     int64  `json:"delta,omitempty"`
+	N         int    `json:"n,omitempty"`
+	Hold      bool   `json:"hold,omitempty"`
+	Phase     int    `json:"phase,omitempty"`
+	Cancel    int    `json:"cancel,omitempty"`     // 0 none; k>0: a cancel task exists, started in phase k-1.. (scenario specific)
+	SleepNs   int64  `json:"sleep_ns,omitempty"`   // handler takes this much fake time
+	GapNs     int64  `json:"gap_ns,omitempty"`     // sub: producer pause between values
+	Raw       string `json:"raw,omitempty"`        // C10: hostile frame / body text
+	Group     int    `json:"group,omitempty"`      // C06: ops with the same group share one cancellable context
+	IgnoreCtx bool   `json:"ignore_ctx,omitempty"` // sub: producer ignores cancellation
+	Stall     bool   `json:"stall,omitempty"`      // sub: the consumer never reads
+	Consume   int    `json:"consume,omitempty"`    // sub: stop reading after k values (0 = all)
 }
 
 type Fault struct {
@@ -100,7 +102,7 @@ type World struct {
 func (e *Env) Build(p *Plan) (*World, error) {
 	w := &World{E: e, P: p}
 	for _, sp := range p.Servers {
-		w.Servers = append(w.Servers, e.NewServer(sp.Addr, ServerOpts{PingInterval: dur(sp.PingNs), Reverse: sp.Reverse, MaxReq: sp.MaxReq}))
+		w.Servers = append(w.Servers, e.NewServer(sp.Addr, ServerOpts{PingInterval: dur(sp.PingNs), Reverse: sp.Reverse, MaxReq: sp.MaxReq, Tracer: sp.Tracer}))
 	}
 	for _, cp := range p.Clients {
 		if cp.Server >= len(w.Servers) {
@@ -121,7 +123,7 @@ func (w *World) Register(op Op) *Tok {
 	t := w.E.Tok(op.Tok)
 	t.mu.Lock()
 	t.Kind, t.Size, t.Err, t.Panic, t.Delta, t.N, t.Hold = op.Kind, op.Size, op.Err, op.Panic, op.Delta, op.N, op.Hold
-	t.SleepNs, t.GapNs = op.SleepNs, op.GapNs
+	t.SleepNs, t.GapNs, t.IgnoreCtx = op.SleepNs, op.GapNs, op.IgnoreCtx
 	if op.Client < len(w.Clients) {
 		t.Client = w.Clients[op.Client].Name
 	}
@@ -162,6 +164,10 @@ func (w *World) Exec(op Op, ctx context.Context) {
 		switch op.Kind {
 		case "call", "ctx":
 			val, err = c.P.Call(ctx, op.Tok)
+		case "call-retryfalse":
+			val, err = c.P.CallNoRetry(ctx, op.Tok)
+		case "slow":
+			val, err = c.P.Slow(ctx, op.Tok)
 		case "callbig":
 			val, err = c.P.CallBig(ctx, op.Tok, Result(op.Tok, op.N))
 		case "retry":
@@ -346,7 +352,7 @@ func (w *World) CheckOwnResults(oracle string, allowConnErr bool) {
 			continue
 		}
 		switch kind {
-		case "call", "retry", "alias", "ctx", "retry-noctx", "call-noctx", "callbig":
+		case "call", "retry", "alias", "ctx", "retry-noctx", "call-noctx", "callbig", "call-retryfalse", "slow":
 		default:
 			continue
 		}
